@@ -2,6 +2,8 @@
 C16  Provisioning status is truthful under any arrival order.
 -/
 import Gpa.Model.Provision
+import Gpa.Model.TagInodes
+import Gpa.Generated.Facts
 namespace Gpa.Props.C16
 open Gpa.Provision
 
@@ -453,3 +455,172 @@ example : (demo.tasks.map fun t => t.answer.map (·.finished)) = [some true] := 
 example : demo.actor.fin = 6 ∧ demo.allTimes = [3] := by decide
 
 end Gpa.Props.C16
+
+/-!
+## "the status tag file on disk is only ever replaced atomically" — overlapping writers, at the level of inodes
+
+Statements about `Gpa.TagInodes`: whole writers may overlap in any way (each collects its message with
+awaits; another writer can run in between), their file operations cannot, because the source performs
+them in one stretch without an await (fact `tagTmpThenAwait = 0`). What remains partial is unchanged:
+two threads inside their stretches at the same time (`two_writers_can_tear` above).
+-/
+namespace Gpa.Props.C16.Inodes
+open Gpa.TagInodes
+
+/-- between two stretches -/
+def Boundary (s : St) : Prop := s.tmp = none ∧ Safe s ∧ ∀ p ∈ s.frozen, p.1 < s.files.length
+
+theorem boundary_init : Boundary St.init := by
+  simp [Boundary, St.init, Safe]
+
+theorem handleOf_cons_self (w i : Nat) (hs : List (Nat × Nat)) : handleOf ((w, i) :: hs) w = some i := by
+  simp [handleOf, List.find?]
+
+theorem overlay_nil (msg : List UInt8) : overlay msg [] = msg := by simp [overlay]
+
+theorem getD_append_lt {α} (l x : List α) (i : Nat) (d : α) (h : i < l.length) : (l ++ x).getD i d = l.getD i d := by
+  simp [List.getD, List.getElem?_append_left h]
+
+theorem set_length_append {α} (l : List α) (a b : α) : (l ++ [a]).set l.length b = l ++ [b] := by
+  induction l with
+  | nil => rfl
+  | cons h t ih => simp [ih]
+
+/-- the states inside and after one stretch started at a boundary, spelled out -/
+theorem stretch_states (s : St) (w : Nat) (msg : List UInt8) (h : Boundary s) :
+    run s ((stretch w msg).take 1) = { s with files := s.files ++ [[]], tmp := some s.files.length, handles := (w, s.files.length) :: s.handles } ∧
+    run s ((stretch w msg).take 2) = { s with files := s.files ++ [msg], tmp := some s.files.length, handles := (w, s.files.length) :: s.handles } ∧
+    run s (stretch w msg) = { s with files := s.files ++ [msg], tmp := none, tag := some s.files.length,
+                                     handles := (w, s.files.length) :: s.handles, frozen := (s.files.length, msg) :: s.frozen } := by
+  obtain ⟨ht, _, _⟩ := h
+  refine ⟨?_, ?_, ?_⟩
+  · simp [run, stretch, step, ht]
+  · simp [run, stretch, step, ht, handleOf_cons_self, overlay, List.getD]
+  · simp [run, stretch, step, ht, handleOf_cons_self, overlay, List.getD]
+
+theorem boundary_after_stretch (s : St) (w : Nat) (msg : List UInt8) (h : Boundary s) : Boundary (run s (stretch w msg)) := by
+  have e := (stretch_states s w msg h).2.2
+  obtain ⟨ht, hs, hl⟩ := h
+  rw [e]
+  refine ⟨rfl, ?_, ?_⟩
+  · intro p hp
+    simp only [List.mem_cons] at hp
+    rcases hp with rfl | hp
+    · simp [List.getD]
+    · have := hl p hp
+      simp only
+      rw [getD_append_lt _ _ _ _ this]
+      exact hs p hp
+  · intro p hp
+    simp only [List.mem_cons] at hp
+    rcases hp with rfl | hp
+    · simp
+    · have := hl p hp
+      simp only [List.length_append, List.length_cons, List.length_nil]
+      omega
+
+theorem safe_inside_stretch (s : St) (w : Nat) (msg : List UInt8) (h : Boundary s) (k : Nat) :
+    Safe (run s ((stretch w msg).take k)) := by
+  have hb := boundary_after_stretch s w msg h
+  obtain ⟨e1, e2, _⟩ := stretch_states s w msg h
+  obtain ⟨_, hs, hl⟩ := h
+  match k with
+  | 0 => simpa [run] using hs
+  | 1 =>
+    rw [e1]; intro p hp
+    simp only
+    rw [getD_append_lt _ _ _ _ (hl p hp)]; exact hs p hp
+  | 2 =>
+    rw [e2]; intro p hp
+    simp only
+    rw [getD_append_lt _ _ _ _ (hl p hp)]; exact hs p hp
+  | k + 3 =>
+    have : (stretch w msg).take (k + 3) = stretch w msg := by simp [stretch]
+    rw [this]; exact hb.2.1
+
+def opsOf (ws : List (Nat × List UInt8)) : List Op := ws.flatMap (fun p => stretch p.1 p.2)
+
+theorem run_append (s : St) (a b : List Op) : run s (a ++ b) = run (run s a) b := by simp [run, List.foldl_append]
+
+theorem boundary_after_all (ws : List (Nat × List UInt8)) (s : St) (h : Boundary s) : Boundary (run s (opsOf ws)) := by
+  induction ws generalizing s with
+  | nil => simpa [opsOf, run] using h
+  | cons a t ih =>
+    have : opsOf (a :: t) = stretch a.1 a.2 ++ opsOf t := by simp [opsOf]
+    rw [this, run_append]
+    exact ih _ (boundary_after_stretch s a.1 a.2 h)
+
+/-- a prefix of a sequence of stretches = some whole stretches and the beginning of one more -/
+theorem take_opsOf (ws : List (Nat × List UInt8)) (k : Nat) :
+    ∃ ws1 w msg j, (opsOf ws).take k = opsOf ws1 ++ (stretch w msg).take j := by
+  induction ws generalizing k with
+  | nil => exact ⟨[], 0, [], 0, by simp [opsOf]⟩
+  | cons a t ih =>
+    have e : opsOf (a :: t) = stretch a.1 a.2 ++ opsOf t := by simp [opsOf]
+    by_cases hk : k ≤ 3
+    · refine ⟨[], a.1, a.2, k, ?_⟩
+      rw [e, List.take_append]
+      have : k - (stretch a.1 a.2).length = 0 := by simp [stretch]; omega
+      simp [this, opsOf]
+    · obtain ⟨ws1, w, msg, j, ih⟩ := ih (k - 3)
+      refine ⟨a :: ws1, w, msg, j, ?_⟩
+      rw [e, List.take_append]
+      have l3 : (stretch a.1 a.2).length = 3 := by simp [stretch]
+      have : (stretch a.1 a.2).take k = stretch a.1 a.2 := by
+        apply List.take_of_length_le; omega
+      rw [this, l3, ih]
+      simp [opsOf]
+
+/-- **C16 (tag file, overlapping writers)** whatever number of writers run, in whatever order their
+stretches come, and wherever the execution is stopped — also in the middle of a stretch —: every file
+that `status.tag` has ever named still holds exactly what it held when it was published. A reader never
+finds one file with two contents. -/
+theorem published_file_keeps_its_content (ws : List (Nat × List UInt8)) (k : Nat) :
+    Safe (run St.init ((opsOf ws).take k)) := by
+  obtain ⟨ws1, w, msg, j, e⟩ := take_opsOf ws k
+  rw [e, run_append]
+  exact safe_inside_stretch _ w msg (boundary_after_all ws1 _ boundary_init) j
+
+/-- and what it names is always one writer's complete message -/
+theorem tag_is_a_complete_message (ws : List (Nat × List UInt8)) (s : St) (h : Boundary s) :
+    (run s (opsOf ws)).tagContent = s.tagContent ∨ ∃ p ∈ ws, (run s (opsOf ws)).tagContent = some p.2 := by
+  induction ws generalizing s with
+  | nil => left; simp [opsOf, run]
+  | cons a t ih =>
+    have e : opsOf (a :: t) = stretch a.1 a.2 ++ opsOf t := by simp [opsOf]
+    rw [e, run_append]
+    have hb := boundary_after_stretch s a.1 a.2 h
+    rcases ih _ hb with h1 | ⟨p, hp, h1⟩
+    · right
+      refine ⟨a, List.mem_cons_self, ?_⟩
+      rw [h1, (stretch_states s a.1 a.2 h).2.2]
+      simp [St.tagContent, List.getD]
+    · exact Or.inr ⟨p, List.mem_cons_of_mem _ hp, h1⟩
+
+/-! ### the other order: the temp file opened before the awaited collection -/
+
+/-- the deadline handler (writer 1, three lines) opens the temp file and waits for its message; the last
+readiness report (writer 2, empty message) opens it too — the same inode —, writes nothing and renames;
+then writer 1 writes: the published file changes under its readers -/
+theorem open_before_collect_changes_a_published_file :
+    ¬ Safe (run St.init [.openTmp 1, .openTmp 2, .write 2 [], .rename, .write 1 [101, 13, 10]]) := by
+  decide
+
+/-- and with two non-empty messages the published text is neither of them -/
+theorem open_before_collect_can_tear :
+    (run St.init [.openTmp 1, .openTmp 2, .write 1 [101, 13, 10, 107, 13, 10], .rename, .write 2 [107, 13, 10]]).tagContent
+      = some [107, 13, 10, 107, 13, 10] := by
+  decide
+
+/-- the same two writers in the order of the source, overlapped as far as the source lets them (writer 2
+runs while writer 1 collects), are safe: an instance of the theorem, kept as a non-vacuity check -/
+example : Safe (run St.init (opsOf [(2, []), (1, [101, 13, 10])])) ∧
+    (run St.init (opsOf [(2, []), (1, [101, 13, 10])])).tagContent = some [101, 13, 10] := by
+  decide
+
+/-- the tie to the source: inside `write_provision_state` nothing is awaited once the temp file's name has
+been used, and the name is used and renamed there (generated facts) -/
+theorem code_file_operations_are_one_stretch :
+    Gpa.Facts.tagTmpThenAwait = 0 ∧ Gpa.Facts.tagTmpThenRename = 1 := by decide
+
+end Gpa.Props.C16.Inodes
